@@ -48,6 +48,7 @@ type xOp struct {
 	Op     string `json:"op"`
 	S      string `json:"s,omitempty"` // hex string argument (url)
 	Strict bool   `json:"strict"`
+	StrictUnset bool `json:"strictunset,omitempty"` // sys: the configuration does not mention strictmode at all (the default must be strict)
 	Via    string `json:"via,omitempty"` // url: "" = ParsePublicURL, "wellknown" = oauth.IssuerIdToWellKnown
 	// flag
 	Flag  string `json:"flag,omitempty"`
@@ -140,7 +141,10 @@ func xCertFiles() (string, string) {
 // xConfigYAML renders the option table as a nuts.yaml
 func xConfigYAML(op xOp, dir string) string {
 	var sb strings.Builder
-	fmt.Fprintf(&sb, "strictmode: %v\ndatadir: %s\nverbosity: panic\n", op.Strict, dir)
+	if !op.StrictUnset {
+		fmt.Fprintf(&sb, "strictmode: %v\n", op.Strict)
+	}
+	fmt.Fprintf(&sb, "datadir: %s\nverbosity: panic\n", dir)
 	if op.URL != "" {
 		fmt.Fprintf(&sb, "url: %q\n", op.URL)
 	}
@@ -368,13 +372,36 @@ func xExec(t *testing.T, op xOp, sock **xSock) (line string) {
 			return "sys refuse:" + xStartErr(err)
 		}
 		// per-action probes on the configured node
-		dummy, remote, iamHTTP, iamIP := "?", "?", "?", "?"
+		dummy, remote, iamHTTP, iamIP, iamAll, iamVC := "?", "?", "?", "?", "?", "?"
 		sk := *sock
-		iamProbe := func(a *auth.Auth, endpoint string) string {
+		iamCall := func(a *auth.Auth, site string, endpoint string) error {
+			c, ctx := a.IAMClient(), context.Background()
+			var err error
+			switch site {
+			case "ClientMetadata":
+				_, err = c.ClientMetadata(ctx, endpoint)
+			case "PresentationDefinition":
+				_, err = c.PresentationDefinition(ctx, endpoint)
+			case "AuthorizationServerMetadata":
+				_, err = c.AuthorizationServerMetadata(ctx, endpoint)
+			case "OpenIDConfiguration":
+				_, err = c.OpenIDConfiguration(ctx, endpoint)
+			case "OpenIdCredentialIssuerMetadata":
+				_, err = c.OpenIdCredentialIssuerMetadata(ctx, endpoint)
+			case "RequestObjectByGet":
+				_, err = c.RequestObjectByGet(ctx, endpoint)
+			case "PostError":
+				_, err = c.PostError(ctx, oauth.OAuth2Error{Code: oauth.InvalidRequest}, endpoint, "state")
+			case "VerifiableCredentials":
+				_, err = c.VerifiableCredentials(ctx, endpoint, "token", "proof")
+			}
+			return err
+		}
+		iamProbeSite := func(a *auth.Auth, site string, endpoint string) string {
 			sk.mu.Lock()
 			sk.locs, sk.reqs = nil, nil
 			sk.mu.Unlock()
-			_, err := a.IAMClient().ClientMetadata(context.Background(), endpoint)
+			err := iamCall(a, site, endpoint)
 			sk.mu.Lock()
 			sent := len(sk.reqs) > 0
 			sk.mu.Unlock()
@@ -388,11 +415,23 @@ func xExec(t *testing.T, op xOp, sock **xSock) (line string) {
 			}
 			return fmt.Sprintf("other:%v", err)
 		}
+		iamProbe := func(a *auth.Auth, endpoint string) string { return iamProbeSite(a, "ClientMetadata", endpoint) }
 		system.VisitEngines(func(e core.Engine) {
 			switch v := e.(type) {
 			case *auth.Auth:
 				iamHTTP = iamProbe(v, "http://c.verif.test:1003/meta")
 				iamIP = iamProbe(v, "https://127.0.0.1:1001/meta")
+				// every other IAM call site that validates its endpoint, with a plain-http endpoint
+				iamAll = ""
+				for _, site := range []string{"PresentationDefinition", "AuthorizationServerMetadata", "OpenIDConfiguration", "OpenIdCredentialIssuerMetadata", "RequestObjectByGet", "PostError"} {
+					if r := iamProbeSite(v, site, "http://c.verif.test:1003/x"); r != iamHTTP {
+						iamAll += site + ":" + r + ","
+					}
+				}
+				if iamAll == "" {
+					iamAll = "same"
+				}
+				iamVC = iamProbeSite(v, "VerifiableCredentials", "http://c.verif.test:1003/credential")
 				_, err := v.ContractNotary().CreateSigningSession(services.CreateSessionRequest{SigningMeans: "dummy", Message: "not a contract"})
 				if err != nil && strings.Contains(err.Error(), "unknown signing means") {
 					dummy = "absent"
@@ -424,7 +463,7 @@ func xExec(t *testing.T, op xOp, sock **xSock) (line string) {
 			}
 		}
 		sk.mu.Unlock()
-		return fmt.Sprintf("sys ok dummy=%s remotectx=%s clientstrict=%v earlyclient=%s iamhttp=%s iamip=%s", dummy, remote, client.StrictMode, earlyOut, iamHTTP, iamIP)
+		return fmt.Sprintf("sys ok dummy=%s remotectx=%s clientstrict=%v earlyclient=%s iamhttp=%s iamip=%s iamsites=%s iamvc=%s", dummy, remote, client.StrictMode, earlyOut, iamHTTP, iamIP, iamAll, iamVC)
 	case "do":
 		if *sock == nil {
 			*sock = xNewSock()
@@ -624,6 +663,28 @@ func xGenerate(seed int64, thorough bool) []xOp {
 	// exhaustive in both tiers (the whole product takes ~20 s); the order is shuffled per seed
 	r.Shuffle(len(product), func(i, j int) { product[i], product[j] = product[j], product[i] })
 	ops = append(ops, product...)
+	// the configuration does not mention strictmode: the default must be strict (secure row + every single insecure setting)
+	secure := xOp{Op: "sys", Strict: true, StrictUnset: true, URL: "https://nuts.nl", TLS: true, Methods: []string{"web", "nuts"}, Crypto: "fs", SQL: true, Dummy: true, Irma: "pbdf", Tag: "default-strict"}
+	for k := 0; k < 8; k++ {
+		op := secure
+		switch k {
+		case 1:
+			op.URL = "http://nuts.nl"
+		case 2:
+			op.URL = "https://127.0.0.1"
+		case 3:
+			op.URL = "https://localhost"
+		case 4:
+			op.TLS = false
+		case 5:
+			op.Crypto = ""
+		case 6:
+			op.SQL = false
+		case 7:
+			op.Irma = "irma-demo"
+		}
+		ops = append(ops, op)
+	}
 	// a CLI secret on an otherwise fine node, both modes
 	for _, strict := range []bool{true, false} {
 		op := base
